@@ -17,6 +17,7 @@ CONSTANTS
   Modes = {"entity", "cdata"}
   W <- WFixed
   RootKinds = {"inst", "class", "prop", "pval", "qual", "qdecl"}
+  EmbPaths = FALSE
 INVARIANT NormIdempotent
 INVARIANT ReqAcceptsNorm
 INVARIANT ReqRejects
